@@ -15,7 +15,8 @@ DecPd(j) ==
      cosa |-> InRat(j.cosa), m |-> j.m, n |-> j.n,
      fl |-> Fn([dof \in 1..3 |-> <<RatSeq(j.fl[dof][1]), RatSeq(j.fl[dof][2])>>]),
      stack |-> Fn([k \in 1..Len(j.stack) |-> DecPly(j.stack[k])]), off |-> InRat(j.off),
-     y1 |-> InRat(j.y1), y2 |-> InRat(j.y2), mu |-> InRat(j.mu), Ncte |-> RatSeq(j.Ncte)]
+     y1 |-> InRat(j.y1), y2 |-> InRat(j.y2), mu |-> InRat(j.mu), Ncte |-> RatSeq(j.Ncte),
+     ortho |-> IF "ortho" \in DOMAIN j THEN j.ortho ELSE FALSE]
 DecCd(j) == [kind |-> j.kind, pd1 |-> DecPd(j.pd1), pd2 |-> DecPd(j.pd2), pos1 |-> InRat(j.pos1), pos2 |-> InRat(j.pos2),
              kt |-> InRat(j.kt), kr |-> InRat(j.kr), auto |-> j.auto, first |-> j.first, pad |-> j.pad]
 
